@@ -87,6 +87,7 @@ type Exec struct {
 	established    map[string]bool         // "TARGET.name": precondition asserted inside this unit (evidence)
 	establishedAt  map[string]map[token.Pos]bool // "FUNC.name" -> call sites at which this unit asserts it
 	modularUsed    map[string]bool         // notes for the evidence: postconditions of sub-regions assumed here
+	partial        *partialUse             // set while an opaque callee is used through part of its contract
 }
 
 func NewExec(prog *Program, cs *ContractSet, unit *FuncUnit, uc *UnitContract) *Exec {
